@@ -29,6 +29,8 @@ def contexts(tier):
     # statement in the ELSE branch of an equality guard (facts of the then-branch must not leak)
     c.append(("guard_eq_else", "", [], ["for i in seq(0, 4):", "if i == 1:", "pass", "<else>"], ["i"], "i"))
     c.append(("guard_div_else", "", [], ["for i in seq(0, 6):", "if i / 4 == 0:", "pass", "<else>"], ["i"], "i"))
+    c.append(("guard_div_then", "", [], ["for i in seq(0, 8):", "if i / 4 == 1:"], ["i"], "i"))
+    c.append(("guard_div2_then", "", [], ["for i in seq(0, 6):", "if i / 2 == 2:"], ["i"], "i"))
     return c
 
 
@@ -147,7 +149,7 @@ def run(rep):
         es = [e for e in es if GE.vars_of(e)]
         # structured family: (a*v + b) / d and % d with composite divisors (exercises divisor splitting)
         v0 = vars_[0]
-        for a, b, d in itertools.product((2, 3, 4, 6), (0, 1), (4, 6, 8, 12)):
+        for a, b, d in itertools.product((1, 2, 3, 4, 6), (0, 1, 3), (4, 6, 8, 12)):
             inner = ("+", ("*", ("c", a), ("v", v0)), ("c", b)) if b else ("*", ("c", a), ("v", v0))
             es.append(("/", inner, d))
             es.append(("%", inner, d))
